@@ -694,6 +694,19 @@ func c01(r *h.Result, rng *h.Rng, tier string, replay string) error {
 	if err := c01HandlerSeq(r, rng.Fork(), nSeq); err != nil {
 		return err
 	}
+	nTxt, nCls, nHE := 300, 800, 40
+	if tier != "quick" {
+		nTxt, nCls, nHE = 4000, 12000, 400
+	}
+	if err := c01RetryText(r, rng.Fork(), nTxt); err != nil {
+		return err
+	}
+	if err := c01Classify(r, rng.Fork(), nCls); err != nil {
+		return err
+	}
+	if err := c01HandlerErrText(r, rng.Fork(), nHE); err != nil {
+		return err
+	}
 	if tier == "quick" {
 		c01HandlerChunks(r, rng.Fork(), 4)
 	} else {
